@@ -27,6 +27,7 @@ RULE = (
     "sizes 0,1,2,n-1,n) leaves polygons, geometry variables, depth and time coordinates identical.  "
     "Non-trivial: meshes with >= 1 optional table, 1-based, plain-variable coordinates, reloaded masks."
     ' Also: meshes with int8 / int16 connectivity on more than 99 / 9999 nodes (fill value clamping), and after every clip a point lookup, select and flatten on the clipped dataset (clip-then-select).'
+    " Datasets also arrive with a history: warmed convention, copy, deep copy, pickle, netCDF round trip, fully chunked (dask), and hand-built conventions for coordinates autodetection would not pick (decoy pair), after warm / pickle. Second phase: the first case of every distinct outcome and kind (thorough: every case, for expensive checks every kind) again with debug logging enabled, under numpy.errstate(all='ignore'), and in python -O child interpreters."
 )
 LEVEL_TEXT = ("every clip output of the C08 product plus all 16 connectivity subsets x index base x fill representation, "
               "saved and reopened; polygons mapped cell by cell; connectivity compared with the filtered and renumbered "
@@ -39,6 +40,10 @@ ASSUMPTIONS = [
 
 def bounds(tier):
     return {'cases': 'clipping.clip_cases(tier) + one select_variables case per dataset'}
+
+
+from ..runner import coarse_environment_key as environment_key  # noqa: E402  (expensive cases: second phase on one case per kind)
+ENVIRONMENTS_ON_REPRESENTATIVES_ONLY = True
 
 
 def cases(tier):
